@@ -402,7 +402,7 @@ def run(ctx):
         "parameters are definitions -1, -2, ... at method entry",
     ]
     nsh = 16
-    per = 1500 if ctx.quick else 40000
+    per = 1500 if ctx.quick else 100000
     ctx.run_shards(MOD, "shard_a", [{"shard": i, "count": per} for i in range(nsh)], timeout=900)
     files = sorted(os.path.basename(p) for p in glob.glob(os.path.join(DEX_DIR, "*.dex")))
     args = []
